@@ -378,3 +378,144 @@ def fn_params(fn):
             names = pat_bindings(i["pat"])
             out.append((names[0] if names else "_", i["ty"]))
     return out
+
+
+# ---------------------------------------------------------------- helper inlining
+def _simple_arg(a):
+    a = strip(a)
+    if a["k"] in ("Path", "Lit"):
+        return True
+    if a["k"] == "Field":
+        return _simple_arg(a["base"])
+    if a["k"] == "MethodCall" and not a["args"] and a["method"] in ("iter", "iter_mut", "as_ref", "as_mut", "as_slice", "as_mut_slice", "as_str", "len"):
+        return _simple_arg(a["recv"])
+    return False
+
+
+def inline_helpers(fn, file, exclude=(), max_rounds=2):
+    """Copy of `fn` in which calls of free functions of the same file are replaced by the callee's body, parameters
+    substituted by the argument expressions.  Only calls whose arguments are plain places (names, fields, references
+    to them) and callees without `return` / `?` / recursion are inlined, so path conditions keep their meaning.
+    Extracting part of a function into a private helper therefore does not change what a rule sees."""
+    import copy
+
+    helpers = {}
+    for q, f in fns_in_file(file):
+        if q == "" and f.get("body") and f["name"] != fn["name"] and f["name"] not in exclude:
+            helpers[f["name"]] = f
+    out = copy.deepcopy(fn)
+
+    def inlinable(h):
+        for n in walk(h["body"]):
+            if n["k"] in ("Return", "Try"):
+                return False
+            if n["k"] == "Call" and n["func"]["k"] == "Path" and last(n["func"]["path"]) == h["name"]:
+                return False
+        return all(not i.get("self") and i["pat"]["k"] == "PIdent" for i in h["sig"]["inputs"])
+
+    def substitute(body, mapping):
+        def rec(n):
+            if isinstance(n, list):
+                return [rec(x) for x in n]
+            if not isinstance(n, dict):
+                return n
+            if n.get("k") == "Path" and n["path"] in mapping:
+                return copy.deepcopy(mapping[n["path"]])
+            return {k: rec(v) for k, v in n.items()}
+
+        return rec(body)
+
+    for _round in range(max_rounds):
+        changed = False
+
+        def rec(n):
+            nonlocal changed
+            if isinstance(n, list):
+                return [rec(x) for x in n]
+            if not isinstance(n, dict):
+                return n
+            n = {k: rec(v) for k, v in n.items()}
+            if n.get("k") == "Call" and n["func"]["k"] == "Path" and "::" not in n["func"]["path"] and n["func"]["path"] in helpers:
+                h = helpers[n["func"]["path"]]
+                if inlinable(h) and len(h["sig"]["inputs"]) == len(n["args"]) and all(_simple_arg(a) for a in n["args"]):
+                    # a parameter shadowed inside the helper (`for access in access.iter_mut()`) is still substituted
+                    # only where it refers to the parameter: keep it simple and refuse when a parameter name is rebound
+                    pnames = [i["pat"]["name"] for i in h["sig"]["inputs"]]
+                    rebound = {b["name"] for b in walk(h["body"]) if b["k"] == "PIdent"} & set(pnames)
+                    mapping = {p: strip(a) for p, a in zip(pnames, n["args"])}
+                    body = copy.deepcopy(h["body"])
+                    if rebound:
+                        # rename the inner rebinding first so that substitution does not capture it
+                        for rb in rebound:
+                            _rename_binding(body, rb, rb + "__inner")
+                    changed = True
+                    return substitute(body, mapping)
+            return n
+
+        out["body"] = rec(out["body"])
+        if not changed:
+            break
+    return out
+
+
+def _rename_binding(body, name, new):
+    """rename the binding `name` introduced inside body (for / let / closure / pattern) and its uses *within the scope of
+    that binding*; uses before the rebinding keep referring to the outer name"""
+    def rename_all(n):
+        if isinstance(n, list):
+            for x in n:
+                rename_all(x)
+        elif isinstance(n, dict):
+            if n.get("k") == "Path" and n["path"] == name:
+                n["path"] = new
+            elif n.get("k") == "PIdent" and n["name"] == name:
+                n["name"] = new
+            for v in n.values():
+                if isinstance(v, (dict, list)):
+                    rename_all(v)
+
+    def binds(p):
+        return any(b["k"] == "PIdent" and b["name"] == name for b in walk(p))
+
+    def rec(n):
+        if isinstance(n, list):
+            for x in n:
+                rec(x)
+            return
+        if not isinstance(n, dict):
+            return
+        k = n.get("k")
+        if k == "For" and binds(n["pat"]):
+            rec(n["iter"])
+            rename_all(n["pat"])
+            rename_all(n["body"])
+            return
+        if k == "Closure" and any(binds(p) for p in n.get("inputs", [])):
+            rename_all(n["inputs"])
+            rename_all(n["body"])
+            return
+        if k == "Block":
+            for i, s in enumerate(n["stmts"]):
+                if s.get("k") == "Local" and binds(s["pat"]):
+                    if s.get("init"):
+                        rec(s["init"])
+                    rename_all(s["pat"])
+                    rename_all(n["stmts"][i + 1:])
+                    return
+                rec(s)
+            return
+        if k == "Arm" and binds(n["pat"]):
+            rename_all(n)
+            return
+        if k == "If" and n["cond"].get("k") == "Let" and binds(n["cond"]["pat"]):
+            rec(n["cond"]["e"])
+            rename_all(n["cond"]["pat"])
+            rename_all(n["then"])
+            if n.get("else"):
+                rec(n["else"])
+            return
+        for v in n.values():
+            if isinstance(v, (dict, list)):
+                rec(v)
+
+    rec(body)
